@@ -264,3 +264,65 @@ Example C14_ex_hint_bound_on_witness :
                     (FrameD.r_ret r <=? 30 - FrameD.r_consumed r))
           [1; 2; 3; 4; 5; 6; 7; 8; 9; 10; 11; 12; 13; 14; 15; 16; 17; 18; 19; 20; 21; 22; 23; 24; 25; 26; 27; 28; 29] = true.
 Proof. vm_compute. reflexivity. Qed.
+
+(* ------------------------------------------------------------------------------------------------
+   Round 7: the ST loop reads exactly the frame (Proofs/IoLz4fExact.v).
+   C14_lz4f_st_reads_exactly: for every block decoder, fault oracle, test flag, fuels and decompression context at the
+   start of a frame (whose header call takes the 4 magic bytes): if the source holds [fr ++ tail] where magic ++ fr is a
+   frame the specification accepts (all checksums verified) and the concrete LZ4IO_decompressLZ4F loop returns, then it
+   leaves exactly [tail] in the source: no byte beyond the frame is read (lost = [] in C14_lz4f_st_concrete_sound).
+   Proof: every fread asks min(hint, 64 KB), and by C14_call_hint_within_frame the hint of every call made inside a
+   valid frame is at most the frame bytes still to come; the `return v` path of LZ4F_decompress (no input at the start of
+   a frame) is excluded through run_post; when the decoder reports the end of the frame the specification's verdict on
+   [magic ++ fr] forces the unconsumed rest of the buffer and the unread rest of the frame to be empty.
+   C14_lz4f_st_fresh_reads_exactly: the same on a calloc'ed dctx (no side condition on the header call).
+   This is the statement C14_lz4f_st_reads_exactly_full_statement of round 4 with the valid frame given as a prefix of
+   the source (s_in s = fr ++ tail, frame_decode (magic ++ fr) = Some (content, [])) instead of through
+   frame_decode (magic ++ s_in s) = Some (content, rest). *)
+From LZ4V Require Proofs.IoLz4fExact.
+
+Theorem C14_lz4f_st_reads_exactly :
+  forall (bdec : list byte -> list byte -> option (list byte)) fuel ifuel test fl d0 s s' fr tail content,
+    IoLz4fRefine.dctx_fresh d0 ->
+    FrameD.r_consumed (snd (FrameD.decompress_usingDict bdec d0 IoLz4fRefine.magic4 0 [] (IoLz4f.o_first false))) = 4 ->
+    s_in s = fr ++ tail -> bytes_ok (s_in s) = true ->
+    frame_decode bdec false [] (IoLz4fRefine.magic4 ++ fr) = Some (content, []) ->
+    IoLz4f.lz4f_st_c bdec fuel ifuel false test fl d0 s = Ret tt s' ->
+    s_in s' = tail.
+Proof. exact IoLz4fExact.lz4f_st_c_reads_exactly. Qed.
+Print Assumptions C14_lz4f_st_reads_exactly.
+
+Theorem C14_lz4f_st_fresh_reads_exactly :
+  forall (bdec : list byte -> list byte -> option (list byte)) fuel ifuel test fl s s' fr tail content,
+    s_in s = fr ++ tail -> bytes_ok (s_in s) = true ->
+    frame_decode bdec false [] (IoLz4fRefine.magic4 ++ fr) = Some (content, []) ->
+    IoLz4f.lz4f_st_c bdec fuel ifuel false test fl FrameD.dctx_init s = Ret tt s' ->
+    s_in s' = tail.
+Proof. exact IoLz4fExact.lz4f_st_fresh_reads_exactly. Qed.
+Print Assumptions C14_lz4f_st_fresh_reads_exactly.
+
+(* the state a returning concrete loop leaves on [frame ++ tail] is the one of the abstract step Io.lz4f_st: the source
+   holds exactly what follows the frame, the destination received exactly the frame's content (nothing in test mode).
+   (The event traces differ by the chunking only: several ERead / EWrite against one each.  The converse - the abstract
+   step returns => the concrete loop returns, i.e. termination within the fuel and no spurious error - is not proved.) *)
+Theorem C14_lz4f_st_return_state :
+  forall (bdec : list byte -> list byte -> option (list byte)) fuel ifuel test fl d0 s s' fr tail content,
+    IoLz4fRefine.dctx_fresh d0 ->
+    FrameD.r_consumed (snd (FrameD.decompress_usingDict bdec d0 IoLz4fRefine.magic4 0 [] (IoLz4f.o_first false))) = 4 ->
+    s_in s = fr ++ tail -> bytes_ok (s_in s) = true ->
+    frame_decode bdec false [] (IoLz4fRefine.magic4 ++ fr) = Some (content, []) ->
+    IOL_dBufferSize * Z.of_nat ifuel * Z.of_nat fuel < IoLz4fRefine.M64 ->
+    IoLz4f.lz4f_st_c bdec fuel ifuel false test fl d0 s = Ret tt s' ->
+    s_in s' = tail /\ s_out s' = s_out s ++ IoLz4fRefine.wrote test content.
+Proof. exact IoLz4fExact.lz4f_st_c_return_state. Qed.
+Print Assumptions C14_lz4f_st_return_state.
+
+(* the frame of C14_ex_concrete_loop followed by two bytes: hypotheses met, the two bytes are left *)
+Example C14_ex_reads_exactly :
+  let fr := [96; 64; 130; 3; 0; 0; 128; 97; 98; 99; 0; 0; 0; 0] in
+  frame_decode spec_decode false [] (IoLz4fRefine.magic4 ++ fr) = Some ([97; 98; 99], []) /\
+  match IoLz4f.lz4f_st_c spec_decode 30 30 false false no_faults FrameD.dctx_init (st_init (fr ++ [7; 7]) 0) with
+  | Ret _ s' => s_in s' = [7; 7]
+  | Die _ _ => False
+  end.
+Proof. vm_compute. split; reflexivity. Qed.
